@@ -534,13 +534,36 @@ def no_emit_override(c, seen=None):
             no_emit_override(v, seen)
 
 
+def prefixedarray_shape(sc):
+    """FocusedSeq(<any>, name/Rebuild(countfield, ...), name/Array(..., subcon)): the expansion of the PrefixedArray macro"""
+    if type(sc) is not core.FocusedSeq or len(sc.subcons) != 2:
+        return None
+    a, b = sc.subcons
+    if type(a) is core.Renamed and type(a.subcon) is core.Rebuild and type(b) is core.Renamed and type(b.subcon) is core.Array:
+        return a.subcon.subcon, b.subcon.subcon
+    return None
+
+
 def no_actualsize_override(sc):
     """the model measures a lazily skipped member with Prefixed._actualsize reached through any names and adapters
-    (Renamed._actualsize / Adapter._actualsize defer to their subcon; model/Parse.v actualsize_with), and with sizeof
-    otherwise; an instance-level _actualsize (the PrefixedArray macro) anywhere along that chain is outside the model"""
+    (Renamed._actualsize / Adapter._actualsize defer to their subcon; model/Parse.v actualsize_with), with the measure the
+    PrefixedArray macro attaches to its FocusedSeq, and with sizeof otherwise.  The macro's measure is recognised by the shape
+    of the expansion: an instance-level _actualsize anywhere else along the chain, another function under that name on that
+    shape, or that shape without the attribute, is outside the model"""
     while True:
+        shape = prefixedarray_shape(sc)
         if '_actualsize' in vars(sc):
-            raise Unsupported('instance-level _actualsize in a lazy position')
+            f = vars(sc)['_actualsize']
+            ok = shape is not None and getattr(f, '__qualname__', '') == 'PrefixedArray.<locals>._actualsize'
+            if ok:
+                import inspect
+                cv = inspect.getclosurevars(f).nonlocals
+                ok = cv.get('countfield') is shape[0] and cv.get('subcon') is shape[1]
+            if not ok:
+                raise Unsupported('instance-level _actualsize in a lazy position')
+            return
+        if shape is not None:
+            raise Unsupported('a FocusedSeq of the PrefixedArray shape without its _actualsize in a lazy position')
         if type(sc) is core.Renamed or isinstance(sc, core.Adapter):
             sc = sc.subcon
         else:
